@@ -111,11 +111,13 @@ def prescribed_executor(pi: List[int], log: Optional[list] = None):
             if self._done:
                 return
             self._done = True
+            self._completion_order = []
             n = len(self._subs)
             order = [i for i in pi if 0 <= i < n]
             order += [i for i in range(n) if i not in order]
             for i in order:
                 fn, fut = self._subs[i]
+                self._completion_order.append(fut)
                 try:
                     fut.set_result(fn())
                 except Exception as e:  # noqa: BLE001  (what a worker thread does)
@@ -133,9 +135,37 @@ class _patched_pool:
         self.par = par
         self.orig = par.ThreadPoolExecutor
         par.ThreadPoolExecutor = prescribed_executor(self.pi, self.log)
+        # code that collects with as_completed()/wait() instead of fut.result() must see the same
+        # prescribed completion order (a lazily completed future would otherwise block for ever)
+        self.saved = {}
+
+        def _as_completed(fs, timeout=None):
+            fs = list(fs)
+            for f in fs:
+                if isinstance(f, _LazyFuture):
+                    f._owner._complete_all()
+            owners = [f._owner for f in fs if isinstance(f, _LazyFuture)]
+            order = [f for o in dict.fromkeys(owners) for f in getattr(o, "_completion_order", [])]
+            rank = {id(f): i for i, f in enumerate(order)}
+            return iter(sorted(fs, key=lambda f: rank.get(id(f), len(rank))))
+
+        def _wait(fs, timeout=None, return_when="ALL_COMPLETED"):
+            fs = list(fs)
+            for f in fs:
+                if isinstance(f, _LazyFuture):
+                    f._owner._complete_all()
+            import collections
+            return collections.namedtuple("DoneAndNotDoneFutures", "done not_done")(set(fs), set())
+
+        for name, fake in (("as_completed", _as_completed), ("wait", _wait)):
+            if hasattr(par, name):
+                self.saved[name] = getattr(par, name)
+                setattr(par, name, fake)
 
     def __exit__(self, *a):
         self.par.ThreadPoolExecutor = self.orig
+        for name, orig in self.saved.items():
+            setattr(self.par, name, orig)
         return False
 
 
